@@ -245,12 +245,8 @@ impl<CharIter: Iterator<Item = char>> Lexer<CharIter> {
                                 break;
                             }
                         },
-                        None => {
-                            return located_error!(
-                                SyntaxError::InvalidIdentifier(identifier_str.clone()),
-                                Some(self.location)
-                            );
-                        }
+                        // end of input ends the identifier like any delimiter
+                        None => break,
                     }
                 },
                 false => {
